@@ -6,7 +6,7 @@
    never consulted before it, so the theorems hold for any primitive, even one that accepts everything. *)
 From Coq Require Import String.
 From Coq Require Import ZArith List Bool.
-From Cose Require Import Lib.Base Lib.GenTypes Model.GoVal Model.Key Model.MsgLogic Model.MsgLogicProofs.
+From Cose Require Import Lib.Base Lib.GenTypes Model.GoVal Model.Key Model.MsgLogic Model.MsgLogicProofs Lib.GoSem Model.HdrSem Gen.SlicesGen Model.SlicesProofs.
 Import ListNotations.
 Open Scope Z_scope.
 
@@ -63,3 +63,29 @@ Theorem C05_sign_verify_mismatch_refused : forall sigs vs sp su vk kd a,
   sign_verify_gates sigs vs = false.
 Proof. exact sign_verify_mismatch_refused. Qed.
 Print Assumptions C05_sign_verify_mismatch_refused.
+
+(* ---- the source itself: the gate statement of Verify / Decrypt and the header preparation of WithSign / Compute /
+   Encrypt are regenerated from the ten methods on every run (translator T12, Gen/SlicesGen.v: the only place a method
+   may consult an algorithm, checked by the translator) and are the model's functions, for every header bucket (nil
+   included), key algorithm and key id; the five message kinds share one and the same term *)
+Theorem C05_gate_source_is_model : forall mp mu kalg kkid kkey nsize draw,
+  cose_Sign1Message_Verify_gate mp mu kalg kkid kkey nsize draw = if alg_gate (hmap mp) kalg then Ok tt else Err.
+Proof. exact gen_gate_sign1. Qed.
+Print Assumptions C05_gate_source_is_model.
+
+Theorem C05_gate_source_same_in_every_kind :
+  cose_Mac0Message_Verify_gate = cose_Sign1Message_Verify_gate /\ cose_MacMessage_Verify_gate = cose_Sign1Message_Verify_gate
+  /\ cose_Encrypt0Message_Decrypt_gate = cose_Sign1Message_Verify_gate /\ cose_EncryptMessage_Decrypt_gate = cose_Sign1Message_Verify_gate.
+Proof. exact gen_gates_alike. Qed.
+Print Assumptions C05_gate_source_same_in_every_kind.
+
+Theorem C05_prepare_source_is_model : forall mp mu k kkey nsize draw,
+  cose_Sign1Message_WithSign_prepare mp mu (key_alg k) (kid k) kkey nsize draw = prepared mp mu k.
+Proof. exact gen_prepare_sign1. Qed.
+Print Assumptions C05_prepare_source_is_model.
+
+Theorem C05_prepare_source_same_in_every_kind :
+  cose_Mac0Message_Compute_prepare = cose_Sign1Message_WithSign_prepare /\ cose_MacMessage_Compute_prepare = cose_Sign1Message_WithSign_prepare
+  /\ cose_Encrypt0Message_Encrypt_prepare = cose_Sign1Message_WithSign_prepare /\ cose_EncryptMessage_Encrypt_prepare = cose_Sign1Message_WithSign_prepare.
+Proof. exact gen_prepares_alike. Qed.
+Print Assumptions C05_prepare_source_same_in_every_kind.
